@@ -1809,9 +1809,6 @@ func (interp *Interpreter) cfg(root *node, sc *scope, importPath, pkgName string
 			n.child[1].tnext = n
 			n.typ = n.child[0].typ
 			n.findex = sc.add(n.typ)
-			if n.start.action == aNop {
-				n.start.gen = branch
-			}
 
 		case lorExpr:
 			if isBlank(n.child[0]) || isBlank(n.child[1]) {
@@ -1824,9 +1821,6 @@ func (interp *Interpreter) cfg(root *node, sc *scope, importPath, pkgName string
 			n.child[1].tnext = n
 			n.typ = n.child[0].typ
 			n.findex = sc.add(n.typ)
-			if n.start.action == aNop {
-				n.start.gen = branch
-			}
 
 		case parenExpr:
 			wireChild(n)
